@@ -2,7 +2,7 @@
 Require Extraction.
 Require Import ExtrOcamlBasic.
 From Coq Require Import ZArith NArith List.
-Require Import Yui.Model.Link Yui.Model.Tng.
+Require Import Yui.Model.Link Yui.Model.Tng Yui.Model.TngCob.
 Extraction Language OCaml.
 Extraction "../ocaml/gen/c01tng_model.ml"
   Z.add N.add Nat.add
@@ -11,4 +11,8 @@ Extraction "../ocaml/gen/c01tng_model.ml"
   Tng.tng_new Tng.tng_empty Tng.tng_find_comp Tng.append_arc Tng.tng_connect Tng.tng_from_resolved
   Tng.tng_is_empty Tng.tng_is_closed Tng.tng_contains_circle Tng.tng_ncomps Tng.tng_comp Tng.tng_euler_num
   Tng.tng_endpts Tng.tng_contains Tng.tng_index_of Tng.tng_remove_at Tng.p_convert Tng.tng_convert
-  Tng.tng_eqb Tng.tng_cmp Tng.tng_of_crossings Tng.circles_agree.
+  Tng.tng_eqb Tng.tng_cmp Tng.tng_of_crossings Tng.circles_agree
+  TngCob.cc_new TngCob.cc_id TngCob.cc_closed TngCob.cc_ndots TngCob.cc_is_closed TngCob.cc_is_cyl TngCob.cc_is_id
+  TngCob.cc_is_invertible TngCob.cc_inv TngCob.cc_nbdr TngCob.cc_euler TngCob.cc_deg TngCob.cc_is_connectable
+  TngCob.cc_connect TngCob.cob_new TngCob.cob_id TngCob.cob_connect_comp TngCob.cob_connect TngCob.cob_euler
+  TngCob.cob_deg TngCob.cob_nbdr TngCob.cob_is_invertible TngCob.cob_inv TngCob.cob_is_closed TngCob.sdl_of.
